@@ -1693,3 +1693,110 @@ fn run_encoding_impl(cfg: &ScenCfg, out: &mut RunOut, rtu: bool) {
     out.sample = Some(json!({"scenario": if rtu { "client encoding lattice (rtu)" } else { "client encoding lattice (tcp)" }, "requests": samples, "decode_level_index": dec_idx}));
     out.observable.extend(format!("{:?}", rig.comps.lock().unwrap()).into_bytes());
 }
+
+// ---------------------------------------------------------------------------
+// C13 / C10 / C07: a retry delay of zero and a connect (or port open) that fails at once. The task then goes
+// round Connecting -> Wait(0) -> Connecting without any virtual time passing; it must nevertheless keep
+// serving its queue: requests fail with no-connection, a disable stops the attempts, shutdown ends the task.
+// The director steps the executor a bounded number of polls instead of settling (no instant ever becomes quiet).
+pub fn run_zero_retry(cfg: &ScenCfg, out: &mut RunOut) {
+    kernel::with(|w| {
+        w.cfg.sched_random = true;
+        w.cfg.select_random = true;
+    });
+    let rtu = cfg.variant == 1;
+    let (_, decode) = pick_decode(&cfg.decode);
+    let addr: SocketAddr = "10.0.0.7:502".parse().unwrap();
+    let rig = if rtu {
+        simtokio::serial::add_line(RTU_PATH, simtokio::serial::OpenOutcome::NoDevice, true);
+        start_rtu_client(9600, (0, 0), decode, 8)
+    } else {
+        // nobody listens: refused at the first poll of the connect
+        start_tcp_client(addr, (0, 0), ClientOptions::default().decode_level(decode).max_queued_requests(8))
+    };
+    let ch = rig.channel.as_ref().unwrap().clone();
+    let now = kernel::now_ns();
+    let spin = |polls: u64| {
+        kernel::run_until(|| false, now, polls);
+    };
+    let attempts = |rtu: bool| if rtu { simtokio::serial::opens(RTU_PATH).len() } else { net::attempt_count() };
+    spawn_cmd(&ch, 0, 0);
+    spin(50 + choose(400) as u64);
+    if attempts(rtu) == 0 {
+        out.violate("C13", "zero_retry/no_attempt", "enabled, but no connection attempt was made".into());
+        return;
+    }
+    let budget = 20_000u64;
+    // requests fail fast
+    let nreq = 1 + choose(3) as usize;
+    for id in 0..nreq {
+        submit(&ch, Style::Future, id, &Req::ReadCoils { start: 0, count: 1 }, 1, 1000 * MS, &rig.comps);
+    }
+    let comps = rig.comps.clone();
+    if !kernel::run_until(|| comps.lock().unwrap().len() == nreq, now, budget) {
+        let d = format!(
+            "retry delay 0 and {} failing at once: {} request(s) submitted while not connected, {} completed within {} polls of the executor (no virtual time can pass: the task never goes idle)",
+            if rtu { "the port open" } else { "the connect" },
+            nreq,
+            comps.lock().unwrap().len(),
+            budget
+        );
+        out.violate("C13", "zero_retry/requests_queue_up", d.clone());
+        out.violate("C10", "zero_retry/requests_queue_up", d.clone());
+        out.violate("C07", "zero_retry/requests_queue_up", d);
+        return;
+    }
+    if let Some(c) = comps.lock().unwrap().iter().find(|c| c.2 != Outcome::NoConnection) {
+        out.violate("C13", "zero_retry/request_outcome", format!("request {} completed with {:?} while not connected", c.0, c.2));
+        return;
+    }
+    out.ops_checked += nreq as u64;
+    // disable: reported, and the attempts stop
+    let seen = rig.states.lock().unwrap().len();
+    spawn_cmd(&ch, 1, 0);
+    let states = rig.states.clone();
+    if !kernel::run_until(|| states.lock().unwrap()[seen..].iter().any(|s| s.1 == MState::Disabled), now, budget) {
+        let d = format!("retry delay 0: disable() not honoured within {} polls (listener tail {:?})", budget, states.lock().unwrap().iter().rev().take(3).collect::<Vec<_>>());
+        out.violate("C13", "zero_retry/disable_ignored", d.clone());
+        out.violate("C07", "zero_retry/disable_ignored", d);
+        return;
+    }
+    spin(200);
+    let a0 = attempts(rtu);
+    spin(500);
+    if attempts(rtu) != a0 {
+        out.violate("C13", "zero_retry/attempt_while_disabled", format!("{} connection attempts after Disabled was reported", attempts(rtu) - a0));
+        return;
+    }
+    out.ops_checked += 1;
+    // enable again, then shutdown (or all handles dropped) ends the task
+    spawn_cmd(&ch, 0, 0);
+    spin(100 + choose(300) as u64);
+    let by_drop = chance(1, 2);
+    let mut rig = rig;
+    if by_drop {
+        drop(ch);
+        rig.channel = None;
+    } else {
+        spawn_cmd(&ch, 3, 0);
+    }
+    let task = &rig.task;
+    if !kernel::run_until(|| task.is_finished(), now, budget) {
+        let d = format!("retry delay 0: the task did not end within {} polls after {}", budget, if by_drop { "all handles were dropped" } else { "shutdown()" });
+        out.violate("C13", "zero_retry/shutdown_ignored", d.clone());
+        out.violate("C10", "zero_retry/shutdown_ignored", d.clone());
+        out.violate("C07", "zero_retry/shutdown_ignored", d);
+        return;
+    }
+    if rig.states.lock().unwrap().last().map(|s| s.1) != Some(MState::Shutdown) {
+        out.violate("C13", "zero_retry/no_shutdown_state", format!("task ended, listener tail {:?}", rig.states.lock().unwrap().iter().rev().take(2).collect::<Vec<_>>()));
+        return;
+    }
+    if kernel::now_ns() != now {
+        out.probe("zero_retry_time_passed");
+    }
+    out.ops_checked += 1;
+    out.probe(if rtu { "zero_retry_rtu" } else { "zero_retry_tcp" });
+    out.nontrivial = Some((attempts(rtu) as u64) << 8 | nreq as u64 | (rtu as u64) << 60 | (by_drop as u64) << 61);
+    out.sample = Some(json!({"scenario": "client with retry delay 0 and an immediately failing connect", "rtu": rtu, "attempts": attempts(rtu), "ended_by": if by_drop { "handles dropped" } else { "shutdown" }}));
+}
